@@ -122,7 +122,7 @@ func longPlan(rng *rand.Rand) []act {
 		{Op: "run", P: 4, Ks: []int{1, 3}, M: "r", N: n()},
 	}
 	writer := act{Op: "call", P: 1, Ks: []int{1, 2}, M: "w"} // parks behind the readers of 1
-	leave := act{Op: "unlock", P: 2}                        // the plain reader leaves, the nested ones stay
+	leave := act{Op: "unlock", P: 2}                         // the plain reader leaves, the nested ones stay
 	if rng.Intn(2) == 0 {
 		plan = append(plan, writer, act{Op: "run", P: 4, Ks: []int{3}, M: "r", N: n()}, leave)
 	} else {
